@@ -102,6 +102,52 @@ func callLen(dialect string, text string) lenOut {
 	return lenOut{o.OK, int(l), o.Msg}
 }
 
+// c14slen: Schema.Len on texts built from the reference automaton of the schema notation (graph exported by SchemaRef.tla):
+// the access string of every state, followed by a separator and a foreign tail. Only plumbing: TraceSchemaLen.tla judges.
+func init() {
+	register("c14slen", func(args []string) int {
+		fs := flag.NewFlagSet("c14slen", flag.ExitOnError)
+		gpath := fs.String("graph", "", "graph json")
+		out := fs.String("out", "-", "trace")
+		fs.Parse(args)
+		var g graph
+		data, err := os.ReadFile(*gpath)
+		if err != nil {
+			fatal(err)
+		}
+		if err := json.Unmarshal(data, &g); err != nil {
+			fatal(err)
+		}
+		acc := g.access()
+		w := newNDWriter(*out)
+		defer w.Close()
+		n, panics := 0, 0
+		seen := map[string]bool{}
+		for s := 0; s < g.N; s++ {
+			if acc[s] == nil || g.Verdict[s] == "unspec" {
+				continue
+			}
+			for _, sep := range lenSeps {
+				for _, tail := range lenTails {
+					text := string(acc[s]) + sep.s + tail.s
+					if seen[text] {
+						continue
+					}
+					seen[text] = true
+					lo := callLen("schema", text)
+					if strings.HasPrefix(lo.Msg, "panic") {
+						panics++
+					}
+					w.Write(map[string]interface{}{"bytes": bytesToInts([]byte(text)), "ok": lo.OK, "len": lo.Len, "text": text, "msg": lo.Msg})
+					n++
+				}
+			}
+		}
+		fmt.Fprintf(os.Stderr, "@@SUMMARY {\"calls\": %d, \"panics\": %d}\n", n, panics)
+		return 0
+	})
+}
+
 func init() {
 	register("c14trace", func(args []string) int {
 		fs := flag.NewFlagSet("c14trace", flag.ExitOnError)
